@@ -432,7 +432,7 @@ def catalogue(seed, tier):
             EXPR_CTX, EXPR_CTX):
         combos.append((sn, sc, en, ec, ex0, c1n, c1, ex1, c2n, c2, ex2))
     rnd.shuffle(combos)
-    ncombo = 300 if tier == 'quick' else 6000
+    ncombo = 300 if tier == 'quick' else 3500
     for (sn, sc, en, ec, ex0, c1n, c1, ex1, c2n, c2, ex2) in combos[:ncombo]:
         mk, m = rnd.choice(expr_markers(0))
         e = c1.replace('{H}', c2.replace('{H}', m))
@@ -808,7 +808,7 @@ def _check(run, tmp):
     t_corr = time.time() - run.t0
     # ---- 4b: dynamic oracle
     rnd = random.Random(run.seed * 7919 + 13)
-    ndyn = 80 if quick else 1500
+    ndyn = 80 if quick else 1000
     stats = {'ok': 0, 'routing': 0, 'diverged': 0, 'error': 0}
     markers = 0
     div_example = None
